@@ -420,5 +420,61 @@ def run_extractor(root, log):
         return {"applied": False, "note": f"extractor failed to run: {e}"}
 
 
+MIRI_SCOPES = [
+    ("aset", dict(type="A8u16", mode="bfs", slots=2, max_slots=3, vals="1,2,3", fill=0)),
+    ("aset", dict(type="A16keyed", mode="bfs", slots=3, vals="1,2,3", updates=1, fill=0, max_transitions=1500)),
+    ("podstr", dict(n=2, chars=1)),
+    ("pstr", dict(w=1, size=3, chars=1)),
+]
+
+
 def run_extras(pid, tier, seed, hbin, wd, env, log):
-    return []
+    """Property-specific additional programs. C05/thorough: the exhaustive small array-set and string scopes
+    under Miri (support for the failing-input search: it pinpoints out-of-bounds raw accesses; not the proof)."""
+    out = []
+    if pid == "C05" and tier == "thorough":
+        hdir = os.path.join(os.path.dirname(os.path.dirname(os.path.abspath(__file__))), "harness")
+        for j, (coll, args) in enumerate(MIRI_SCOPES):
+            stats = os.path.join(wd, f"miri{j}.stats.json")
+            journal = os.path.join(wd, f"miri{j}.journal.txt")
+            argv = ["cargo", "+nightly", "miri", "run", "--offline", "--", coll] + [f"{k}={v}" for k, v in args.items()] + \
+                   ["out=/dev/null", f"stats={stats}", "op_timeout=3000"]
+            e = dict(env, MIRIFLAGS="-Zmiri-disable-isolation", VERIF_JOURNAL=journal)
+            rec = {"kind": "miri", "cmd": " ".join(argv[5:]), "evaluations": 0, "distinct_nontrivial": 0, "samples": []}
+            try:
+                p = subprocess.run(argv, cwd=hdir, env=e, stdout=subprocess.PIPE, stderr=subprocess.STDOUT, text=True, timeout=3000)
+                log.write(p.stdout[-3000:])
+                if "Undefined Behavior" in p.stdout or (p.returncode != 0 and "error:" in p.stdout):
+                    ub = [l for l in p.stdout.splitlines() if "Undefined Behavior" in l or l.startswith("error")][:2]
+                    last = open(journal).read().splitlines() if os.path.exists(journal) else []
+                    rec["violation"] = f"Miri: {' / '.join(ub)[:400]} while executing `{last[-1] if last else '?'}`"
+                    rec["replay"] = ["# " + " ".join([hbin, coll] + [f"{k}={v}" for k, v in args.items()]), "# reported by Miri (cargo +nightly miri run)"] + last
+                    rec["found_input"] = bool(last)
+                elif p.returncode != 0:
+                    rec["note"] = f"miri did not run (exit {p.returncode}); not counted"
+                else:
+                    st = json.load(open(stats))
+                    rec["evaluations"] = st.get("transitions", 0)
+                    rec["distinct_nontrivial"] = st.get("nontrivial_states", 0)
+                    rec["samples"] = [{"miri_scope": rec["cmd"], "case": x} for x in st.get("samples", [])[:1]]
+                    for f in st.get("findings", []):
+                        if f["property"] == pid and "violation" not in rec:
+                            rec["violation"] = f["what"]
+                            rec["replay"] = ["# " + " ".join([hbin, coll] + [f"{k}={v}" for k, v in args.items()])] + f["history"]
+            except subprocess.TimeoutExpired:
+                rec["note"] = "miri timed out; not counted"
+            out.append(rec)
+    if tier == "thorough":
+        # independent re-check of the compiled property module by leanchecker
+        ldir = os.path.join(os.path.dirname(os.path.dirname(os.path.abspath(__file__))), "lean")
+        try:
+            p = subprocess.run(["lake", "env", "leanchecker", f"Stevia.Props.{pid}"], cwd=ldir, stdout=subprocess.PIPE, stderr=subprocess.STDOUT, text=True, timeout=1200)
+            rec = {"kind": "leanchecker", "cmd": f"lake env leanchecker Stevia.Props.{pid}", "exit": p.returncode, "evaluations": 0, "distinct_nontrivial": 0, "samples": []}
+            if p.returncode != 0:
+                rec["violation"] = f"leanchecker rejects Stevia.Props.{pid}: {p.stdout[-300:]}"
+                rec["replay"] = [f"# lake env leanchecker Stevia.Props.{pid}", "# " + p.stdout[-300:].replace("\n", " ")]
+                rec["found_input"] = False
+            out.append(rec)
+        except Exception as e:  # noqa: BLE001
+            out.append({"kind": "leanchecker", "note": f"did not run: {e}", "evaluations": 0, "distinct_nontrivial": 0, "samples": []})
+    return out
